@@ -44,6 +44,11 @@ BUCKETS = [
     (r"redeclared as different kind of entity", "name-collides-with-libc-symbol"),
     (r"(is not a member of|has not been declared|does not name a type)", "undeclared-name"),
 ]
+DIRECTED = [
+    ("span-in-option", "w", "package a:b;\nworld w { import f: func(a: option<list<s32>>, b: tuple<u8, option<map<u64, u16>>>); }\n", None),
+    ("resource-uses-later-type", "w", "package a:b;\ninterface i { resource res { constructor(x: later); m: func() -> later; } record later { a: u8 } }\nworld w { export i; }\n", None),
+    ("libc-name", "w", "package stdout:b;\ninterface i { f: func(); }\nworld w { import i; }\n", None),
+]
 GXX_FLAGS = ["-std=c++20", "-D_GLIBCXX_USE_DEPRECATED=0", "-fsyntax-only", "-Wno-attributes"]
 
 
@@ -93,9 +98,12 @@ def run_job(job, workroot, gxx):
     e = _first_error(err)
     if not e or rc < 0 or "internal compiler error" in err:
         return {"status": "inconclusive", "why": "g++ crashed (rc=%s)" % rc, "detail": err[-300:]}
-    root = compz.bucket(e, BUCKETS) or compz.keyword_root_cause(err, compz.read_wit(job["wit"]), compz.C_KEYWORDS)
-    return {"status": "violation", "sig": compz.signature(job, "cpp:syntax:", root or compz.normalise(e), closed=tuple(b for _, b in BUCKETS)), "what": "g++ rejects the generated C++: " + e, "detail": err[:2000]}
-
+    wit_text = compz.read_wit(job["wit"])
+    root = compz.bucket(e, BUCKETS) or compz.keyword_root_cause(err, wit_text, compz.C_KEYWORDS)
+    if not root and job["source"] == "random" and compz.confirmed_temporary_collision(err, wit_text):
+        root = "generator-temporary-collision"
+    sig = compz.signature(job, "cpp:syntax:", root, named=True) if root else compz.signature(job, "cpp:syntax:", compz.normalise(e))
+    return {"status": "violation" if sig else "unclassified", "stage": "g++", "sig": sig, "what": "g++ rejects the generated C++: " + e, "detail": err[:2000]}
 
 def run(tier, seed, replay):
     rep = vcommon.Report("C31", level="exploration",
@@ -109,8 +117,8 @@ def run(tier, seed, replay):
         if replay:
             jobs, stats = compz.replay_job(replay, work, VARIANTS), {}
         else:
-            jobs, stats = compz.plan("cpp", tier, seed, work, VARIANTS, 36 if tier == "quick" else 1500, PROFILES)
-        counts = {"ok": 0, "violation": 0, "inconclusive": 0, "skipped": 0}
+            jobs, stats = compz.plan("cpp", tier, seed, work, VARIANTS, 36 if tier == "quick" else 1500, PROFILES, directed=DIRECTED)
+        counts = {"ok": 0, "violation": 0, "inconclusive": 0, "skipped": 0, "unclassified": 0}
         with concurrent.futures.ThreadPoolExecutor(max_workers=vcommon.NPROC) as ex:
             futs = {ex.submit(compz.retry_lowercased, j, work, lambda jj: run_job(jj, work, gxx)): j for j in jobs}
             results = []
@@ -125,6 +133,9 @@ def run(tier, seed, replay):
                     rep.add_eval(vcommon.stable_hash(compz.read_wit(j["wit"])) if r["funcs"] else None)
                     if len(rep.samples) < 6:
                         rep.samples.append({"job": j["id"], "world": r["world"], "functions": r["funcs"], "generated_files": r["files"]})
+                elif r["status"] == "unclassified":
+                    rep.add_eval(vcommon.stable_hash(compz.read_wit(j["wit"])))
+                    compz.unclassified(rep, j, r["stage"], r["what"], r.get("detail", ""))
                 elif r["status"] == "violation":
                     tally = rep.extra.setdefault("violation_tally", {})
                     k = "%s | %s" % (r["sig"], compz.normalise(r["what"].split(": ", 1)[-1]))
@@ -149,7 +160,7 @@ def dbg_ctx(work):
 
 
 def dbg_plan(tier, seed, work):
-    return compz.plan("cpp", tier, seed, work, VARIANTS, 36 if tier == "quick" else 1500, PROFILES)
+    return compz.plan("cpp", tier, seed, work, VARIANTS, 36 if tier == "quick" else 1500, PROFILES, directed=DIRECTED)
 
 
 def dbg_run(job, work, ctx):
